@@ -41,6 +41,7 @@ def required(tier):
             'get:create_file:reloaded:new', 'iter:append', 'iter:read',
             'add:in-memory store refused (would evict)', 'save:in-memory->file',
             'get:beyond-end:append', 'get:beyond-end:read',
+            'assoc-lag:append-continues-base-list',
         ],
         'counters': {'evictions': 1, 'append_old_reload': 1, 'append_new_reload': 1},
         'evaluations': 500,
@@ -115,6 +116,85 @@ def one_history(rng: random.Random, workdir: Path, rec, k: int):
     return h
 
 
+def assoc_lag_history(rng, workdir: Path, rec, k):
+    """Base + associated file; an append session on the base alone leaves the associated
+    file shorter; the next append session on both must still continue the base's list."""
+    import numpy as np
+
+    import vlib.fieldsets as vf
+    from AEIC.trajectories import TrajectoryStore
+    from vlib import trajgen
+    from vlib.storeops import Mismatch
+
+    nprng = np.random.default_rng(rng.getrandbits(32))
+    base = workdir / f'al{rng.getrandbits(40):x}.nc'
+    assoc = workdir / f'al{rng.getrandbits(40):x}_x.nc'
+    uid = [k * 1000 + 600]
+    model = []
+
+    def mk(full):
+        uid[0] += 1
+        t = trajgen.make_base_traj(nprng, rng.randint(2, 6), uid[0])
+        if full:
+            t.add_fields(vf.VX_SIMPLE)
+            vf.fill(t, 'vx_simple', rng)
+        return t
+
+    def add(st, full, log):
+        t = mk(full)
+        idx = st.add(t)
+        rec.ev()
+        if idx != len(model):
+            raise Mismatch('add returned wrong index',
+                           {'returned': idx, 'expected': len(model), 'history': log,
+                            'layout': 'base+associated, associated file lagging'})
+        model.append((trajgen.snapshot(t), full))
+        if len(st) != len(model):
+            raise Mismatch('len(store) differs from number of successful additions',
+                           {'store_len': len(st), 'model_len': len(model), 'history': log})
+
+    log = []
+    n, kk = rng.randint(1, 4), rng.randint(1, 3)
+    try:
+        st = TrajectoryStore.create(base_file=base, associated_files=[(assoc, ['vx_simple'])])
+        for _ in range(n):
+            add(st, True, log)
+        st.close()
+        log.append(f'create base+assoc, {n} adds')
+        st = TrajectoryStore.append(base_file=base)            # base only
+        for _ in range(kk):
+            add(st, False, log)
+        st.close()
+        log.append(f'append base only, {kk} adds')
+        st = TrajectoryStore.append(base_file=base, associated_files=[assoc])
+        rec.ev()
+        if len(st) != len(model):
+            raise Mismatch('len(store) differs from number of successful additions',
+                           {'store_len': len(st), 'model_len': len(model), 'history': log})
+        add(st, True, log)
+        log.append('append base+assoc, 1 add')
+        for i in list(range(n)) + [len(model) - 1]:
+            got = st[i]
+            rec.ev()
+            if trajgen.fingerprint(got) != trajgen.fingerprint(model[i][0]):
+                raise Mismatch('store[i] returned a different trajectory',
+                               {'index': i, 'got': trajgen.fingerprint(got),
+                                'expected': trajgen.fingerprint(model[i][0]), 'history': log})
+        st.close()
+        st = TrajectoryStore.open(base_file=base)               # base only: the whole list
+        fg = [trajgen.fingerprint(t) for t in st]
+        st.close()
+        rec.ev()
+        if fg != [trajgen.fingerprint(s) for s, _ in model]:
+            raise Mismatch('iteration order/content differs from insertion order',
+                           {'got': fg, 'expected': [trajgen.fingerprint(s) for s, _ in model],
+                            'history': log})
+        rec.cls('assoc-lag:append-continues-base-list')
+    finally:
+        for p in (base, assoc):
+            p.unlink(missing_ok=True)
+
+
 def run_shard(spec, rec):
     from vlib.storeops import Mismatch
 
@@ -130,6 +210,11 @@ def run_shard(spec, rec):
                                 'cache_items': h.cache_items})
             except Mismatch as m:
                 classify(rec, m, {'spec': {'seed': spec['seed'], 'n': spec['n']}, 'k': k})
+            if k % 4 == 0:
+                try:
+                    assoc_lag_history(random.Random(f"{spec['seed']}-{k}-lag"), workdir, rec, k)
+                except Mismatch as m:
+                    classify(rec, m, {'spec': {'seed': spec['seed'], 'n': spec['n']}, 'k': k})
     finally:
         shutil.rmtree(workdir, ignore_errors=True)
 
